@@ -396,8 +396,7 @@ def data_problem(n):
 def handle_data(c):
     v = [ps.fr(x) for x in c['val']]
     p, comp = data_problem(len(v))
-    p.set_val('x', np.array([float(x) for x in v]))
-    p.run_model()
+    comp._inputs['x'] = np.array([float(x) for x in v])
     kw = {'form': c['form'], 'step': fl(c['step']), 'step_calc': c['step_calc']}
     if c.get('order') is not None:
         kw['order'] = c['order']
